@@ -169,6 +169,12 @@ impl<Tr: ?Sized + Trait, M: MemBuilder> Consumer<Tr, M> for InsertC {
     #[inline] fn take<V: AnyValue>(self, a: &mut AnyVec<Tr, M>, v: V) { a.insert(self.0, v) }
 }
 
+/// consume the value as the single replacement item of `splice(i..i, [v])`
+pub struct SpliceC(pub usize);
+impl<Tr: ?Sized + Trait, M: MemBuilder> Consumer<Tr, M> for SpliceC {
+    #[inline] fn take<V: AnyValue>(self, a: &mut AnyVec<Tr, M>, v: V) { let d = a.splice(self.0..self.0, [v]); drop(d); }
+}
+
 /// Feed a depth-`d` lazy clone chain of `v` into consumer `c`.
 pub fn lazy_feed<V, Tr, M, C>(v: &V, depth: u8, a: &mut AnyVec<Tr, M>, c: C)
 where V: AnyValueCloneable + AnyValue, Tr: ?Sized + Trait, M: MemBuilder, C: Consumer<Tr, M>
